@@ -78,6 +78,10 @@ pub struct MirrorCase {
     /// called); ending must not panic for a reason other than unmet expectations
     #[serde(default)]
     pub finish: u8,
+    /// provided methods also get the documented catch-all `each_call(matching!(_)).applies_default_impl()`, next to
+    /// a specific clause that never matches: the upstream body must still run for every call
+    #[serde(default)]
+    pub catch_all_default: bool,
 }
 
 /// Script state shared by the mock's answer functions and by the plain struct.
@@ -348,8 +352,21 @@ fn all<F: MockFn>() -> impl Fn(&mut unimock::private::Matching<F>) {
     |m| m.func(|_, _| true)
 }
 
-pub fn mock_for(s: &Shared, max_duty: u16, partial: bool) -> Unimock {
+pub fn mock_for(s: &Shared, max_duty: u16, partial: bool, catch_all_default: bool) -> Unimock {
     let mut dc = DynClause::new();
+    if catch_all_default {
+        // a specific clause that never matches, then the catch-all that hands every call to the upstream body
+        dc.push(WriteMock::write_all.each_call(&|m| m.func(|_, _| false)).answers(&|_, _| Ok(())));
+        dc.push(WriteMock::write_all.each_call(&all()).applies_default_impl());
+        dc.push(ReadMock::read_exact.each_call(&|m| m.func(|_, _| false)).answers(&|_, _| Ok(())));
+        dc.push(ReadMock::read_exact.each_call(&all()).applies_default_impl());
+        dc.push(ReadMock::read_to_end.each_call(&|m| m.func(|_, _| false)).answers(&|_, _| Ok(0)));
+        dc.push(ReadMock::read_to_end.each_call(&all()).applies_default_impl());
+        dc.push(hal::delay::DelayNsMock::delay_ms.each_call(&|m| m.func(|_, _| false)).returns(()));
+        dc.push(hal::delay::DelayNsMock::delay_ms.each_call(&all()).applies_default_impl());
+        dc.push(HasherMock::write_u32.each_call(&|m| m.func(|_, _| false)).returns(()));
+        dc.push(HasherMock::write_u32.each_call(&all()).applies_default_impl());
+    }
     let (a, b, c, d, e, f, g, h) = (s.clone(), s.clone(), s.clone(), s.clone(), s.clone(), s.clone(), s.clone(), s.clone());
     dc.push(WriteMock::write.each_call(&all()).answers_arc(Arc::new(move |_, buf| a.lock().unwrap().write_step(buf))));
     dc.push(WriteMock::flush.each_call(&all()).answers_arc(Arc::new(move |_| b.lock().unwrap().flush_step())));
@@ -505,7 +522,7 @@ fn run_mock(c: &MirrorCase) -> (String, Vec<String>) {
         Drive::Pwm(_, m, _) => *m,
         _ => 100,
     };
-    let mut u = mock_for(&s, max_duty, c.partial);
+    let mut u = mock_for(&s, max_duty, c.partial, c.catch_all_default);
     let out = match &c.drive {
         d @ (Drive::WriteAll(_) | Drive::WriteFmt(..) | Drive::WriteVectored(_) | Drive::ReadExact(_) | Drive::ReadToEnd | Drive::ReadToString
         | Drive::ReadVectored(_) | Drive::ReadLine | Drive::ReadUntil(_) | Drive::SeekRewind | Drive::SeekStreamPosition) => {
@@ -727,7 +744,7 @@ pub fn check(c: &MirrorCase) -> Result<CaseInfo, String> {
         Drive::SpiTransferInPlace(_) => "SpiDevice::transfer_in_place",
         Drive::Pwm(..) => "SetDutyCycle::set_duty_cycle_*",
     };
-    Ok(CaseInfo::new(short || plain.1.len() >= 2).class(name).class_if(short, "short-transfer-or-error-in-script").class_if(c.partial, "partial-mock").class_if(c.finish % 3 == 1, "ended-by-report()").class_if(c.finish % 3 == 2, "ended-by-verify()"))
+    Ok(CaseInfo::new(short || plain.1.len() >= 2).class(name).class_if(short, "short-transfer-or-error-in-script").class_if(c.partial, "partial-mock").class_if(c.finish % 3 == 1, "ended-by-report()").class_if(c.finish % 3 == 2, "ended-by-verify()").class_if(c.catch_all_default, "catch-all-applies_default_impl-clauses"))
 }
 
 fn step_strategy() -> impl Strategy<Value = Step> {
@@ -772,8 +789,9 @@ pub fn case_strategy() -> impl Strategy<Value = MirrorCase> {
         drive_strategy(),
         any::<bool>(),
         0..3u8,
+        proptest::bool::weighted(0.3),
     )
-        .prop_map(|(script, data, drive, partial, finish)| MirrorCase { script, data, drive, partial, finish })
+        .prop_map(|(script, data, drive, partial, finish, catch_all_default)| MirrorCase { script, data, drive, partial, finish, catch_all_default })
 }
 
 // ------------------------------------------------------------------ wiring sweep
